@@ -20,6 +20,12 @@ H = {
                        ('accepted', 'rejected')),
     'strlen': mk('strlen', strs.scen_strlen, ('ok', 'ValueError')),
 }
+H['uuid-like'] = R.Harness('uuid-like', strs.scen_uuid_like,
+                           strs.load_sym_uuid, strs.load_real_uuid)
+H['uuid-like'].required_goals = ('accepted', 'rejected')
+H['generate-uuid'] = R.Harness('generate-uuid', strs.scen_generate_uuid,
+                               strs.load_sym_uuid, strs.load_real_uuid)
+H['generate-uuid'].required_goals = ('done',)
 BOOLDOM = sorted(set(b'tTrRuUeEfFaAlLsSoOnNyY01 \t\nxX\xa0_'))
 
 
@@ -37,7 +43,19 @@ def build_jobs(tier, seed):
         J(H['validate-int'], dict(kind='str', n=3 if q else 4),
           split_depth=8),
         J(H['strlen'], dict(n=4 if q else 6)),
+        J(H['generate-uuid'], {}),
     ]
+    # is_uuid_like: symbolic characters at the interesting positions
+    # (first, second - "0x" -, middle, last) of a 30..34 character body
+    posets = [[0, 1], [0, -1], [15, 16]] if q else \
+        [[0, 1], [0, -1], [1, -1], [15, 16], [7, 8], [0, 1, -1]]
+    for deco in ('plain', 'hyphenated', 'braced', 'urn'):
+        for ps in posets:
+            jobs.append(J(H['uuid-like'], dict(decoration=deco,
+                                               positions=ps),
+                          split_depth=6))
+        jobs.append(J(H['uuid-like'], dict(decoration=deco, positions=[0],
+                                           lengths=[30, 31, 33, 34])))
     return jobs
 
 
@@ -58,8 +76,15 @@ def describe(tier):
             3 if q else 4),
         'check_string_length': 'lengths 0..%d, min 0..8, max None or 1..8; '
         'non-string arguments' % (4 if q else 6),
-        'outside': 'is_uuid_like / generate_uuid (uuid.UUID internals are '
-        'not encoded); longer strings; code points above 0xFF; '
+        'is_uuid_like': 'plain / hyphenated / braced / urn:uuid: spellings '
+        'of a 32-character body with 2 (thorough: up to 3) symbolic '
+        'characters over [09afAFgz_x+- {}:] at the first, second, middle and '
+        'last positions, and bodies of 30, 31, 33, 34 characters; uuid.UUID '
+        'is a contract model (CPython normalisation and int(x, 16) rules)',
+        'generate_uuid': 'uuid4 from 16 symbolic random bytes: shape, '
+        'version nibble, dashed/undashed agreement, is_uuid_like of both',
+        'outside': 'longer strings; more than 3 arbitrary characters in a '
+        'UUID body; '
         'max_length=0 (treated as no bound by the code, not covered by the '
         'statement)',
     }
